@@ -244,6 +244,29 @@ async def amain(spec: dict) -> dict:
         rec['errors'].append(f'{type(e).__name__}: {e}')
     rec['finished'] = finished
     rec['state_after_run'] = nl.state
+    if finished and spec.get('second_run'):
+        # the same object runs again (reset, run): what the first run left behind — e.g. after it was killed — must not matter
+        n_hooks = len(rec['hooks'])
+        n_cmds = len(rec['commands_sent'])
+        sig = None                     # no signal in the second run
+        try:
+            await asyncio.wait_for(nl.reset(), timeout=10)
+
+            async def go2() -> None:
+                async with nl.run_session():
+                    pass
+            await asyncio.wait_for(go2(), timeout=spec.get('second_timeout', 20))
+            rec['second_finished'] = True
+        except asyncio.TimeoutError:
+            rec['second_finished'] = False
+            rec['errors'].append('timeout waiting for the second run to finish')
+        except BaseException as e:  # noqa
+            rec['second_finished'] = False
+            rec['errors'].append(f'second run: {type(e).__name__}: {e}')
+        rec['second_hooks'] = rec['hooks'][n_hooks:]
+        rec['second_commands_sent'] = rec['commands_sent'][n_cmds:]
+        rec['second_state'] = nl.state
+        finished = bool(rec.get('second_finished'))
     if finished:
         try:
             rec['result'] = _clean(nl.result())
